@@ -60,7 +60,7 @@ theorem formatReadArgs_hf (D : Desc) (s : St) (f : Fsm) (i : SvcIn) : (formatRea
 theorem formatTestArgs_hf (D : Desc) (s : St) (f : Fsm) : (formatTestArgs D s f).1.holdFlag = s.holdFlag := by simp [formatTestArgs]; hf
 theorem processIoWriteWait_hf (s : St) : (processIoWriteWait s).1.holdFlag = s.holdFlag := by simp [processIoWriteWait]; hf
 theorem processIoWrite_hf (D : Desc) (s : St) (i : SvcIn) : (processIoWrite D s i).1.holdFlag = s.holdFlag := by simp [processIoWrite]; hf
-theorem printCmdList_hf (D : Desc) (s : St) : (printCmdList D s).holdFlag = s.holdFlag := by simp [printCmdList]; hf
+theorem printCmdList_hf (D : Desc) (s : St) : (printCmdList D s).holdFlag = s.holdFlag := by simp [printCmdList, printCmdForm]; hf
 
 /-- the coupling between the hold flag and the HOLD state (Appendix B.3) -/
 def HoldCpl (s : St) : Prop := s.holdFlag = true ↔ s.state = .hold
